@@ -649,7 +649,7 @@ def solve(pc, claim, extra=(), timeout_ms=30000, npre=0):
     t0 = time.time()
     if claim is True: return 'unsat', None, 0.0
     neg = z3.BoolVal(True) if claim is False else z3.Not(claim)
-    if claim is not False and _size(claim, 20000) < 20000:
+    if claim is not False and _size(claim, 2500) < 2500:
         # polynomial identities are decided by z3's simplifier once both sides are expanded to sums of monomials;
         # nlsat (CAD) would otherwise be asked to refute "p != 0" for an identically zero p in a dozen variables
         neg2 = z3.simplify(neg, som=True, arith_lhs=True)
